@@ -861,6 +861,9 @@ func (env *SpecEnv) call(x *ast.CallExpr) tv {
 			q = "exists"
 			inner = and(guard, bt.T)
 		}
+		if q == "forall" {
+			return tv{T: buildForall([]string{bn}, []string{so}, guard, bt.T), Ty: boolT}
+		}
 		return tv{T: Term{fmt.Sprintf("(%s ((%s %s)) %s)", q, bn, so, inner.S), sBool}, Ty: boolT}
 	case "typeis":
 		a := env.eval(x.Args[0])
@@ -894,6 +897,15 @@ func (env *SpecEnv) call(x *ast.CallExpr) tv {
 			r = ifacePv(a.T)
 		}
 		return tv{T: mk(sBool, "<", env.oldAlloc, r), Ty: boolT}
+	case "allocated": // allocated(p): the reference exists in the current state
+		a := env.eval(x.Args[0])
+		r := a.T
+		if a.T.So == sSlice {
+			r = sliceBase(a.T)
+		} else if a.T.So == sIface {
+			r = ifacePv(a.T)
+		}
+		return tv{T: mk(sBool, "<=", r, env.alloc), Ty: boolT}
 	case "ref": // ref(x): the Int reference of a pointer / interface payload
 		a := env.eval(x.Args[0])
 		if a.T.So == sIface {
@@ -981,4 +993,166 @@ func (env *SpecEnv) specCall(name string, args []ast.Expr) tv {
 		return tv{T: Term{name, sf.ret}}
 	}
 	return tv{T: mk(sf.ret, name, ts...)}
+}
+
+
+// triggerTerms finds array reads indexed by the bound variable: the minimal
+// `(select A I)` subterms where I mentions bn and A does not. They are used
+// as alternative instantiation patterns.
+func triggerTerms(body, bn string) []string {
+	var out []string
+	seen := map[string]bool{}
+	hasVar := func(s string) bool {
+		i := 0
+		for {
+			j := strings.Index(s[i:], bn)
+			if j < 0 {
+				return false
+			}
+			j += i
+			end := j + len(bn)
+			okL := j == 0 || strings.ContainsRune(" ()", rune(s[j-1]))
+			okR := end == len(s) || strings.ContainsRune(" ()", rune(s[end]))
+			if okL && okR {
+				return true
+			}
+			i = end
+		}
+	}
+	var walk func(s string)
+	walk = func(s string) {
+		s = strings.TrimSpace(s)
+		if !strings.HasPrefix(s, "(") || !hasVar(s) {
+			return
+		}
+		parts := splitSexprs(s[1 : len(s)-1])
+		if len(parts) == 3 && parts[0] == "select" && hasVar(parts[2]) && !hasVar(parts[1]) && !strings.Contains(parts[2], "(select ") {
+			if !seen[s] && !strings.Contains(s, "forall") {
+				seen[s] = true
+				out = append(out, s)
+			}
+			return
+		}
+		if len(parts) > 0 && (parts[0] == "forall" || parts[0] == "exists" || parts[0] == "!") {
+			// do not descend into nested binders for patterns of the outer one
+			if parts[0] == "!" {
+				walk(parts[1])
+			}
+			return
+		}
+		for _, p := range parts[1:] {
+			walk(p)
+		}
+	}
+	walk(body)
+	if len(out) > 4 {
+		out = out[:4]
+	}
+	return out
+}
+
+
+// buildForall builds (forall (vars) (=> guard body)) merging directly nested
+// universal quantifiers into one binder with a multi-pattern made of one array
+// read per bound variable.
+func buildForall(vars, sorts []string, guard, body Term) Term {
+	matrix := body.S
+	g := guard
+	for strings.HasPrefix(matrix, "(forall ((") {
+		parts := splitSexprs(matrix[1 : len(matrix)-1])
+		if len(parts) != 3 {
+			break
+		}
+		binders := splitSexprs(parts[1][1 : len(parts[1])-1])
+		for _, b := range binders {
+			bp := splitSexprs(b[1 : len(b)-1])
+			vars = append(vars, bp[0])
+			sorts = append(sorts, bp[1])
+		}
+		m := parts[2]
+		if strings.HasPrefix(m, "(! ") {
+			mp := splitSexprs(m[1 : len(m)-1])
+			m = mp[1]
+		}
+		// m is (=> guard2 body2) or a plain body
+		if strings.HasPrefix(m, "(=> ") {
+			ip := splitSexprs(m[1 : len(m)-1])
+			if len(ip) == 3 {
+				g = and(g, Term{ip[1], sBool})
+				m = ip[2]
+			}
+		}
+		matrix = m
+	}
+	var bind strings.Builder
+	for i := range vars {
+		fmt.Fprintf(&bind, "(%s %s)", vars[i], sorts[i])
+	}
+	inner := implies(g, Term{matrix, sBool})
+	// one trigger term per variable
+	var multi []string
+	ok := true
+	for _, v := range vars {
+		ts := triggerTerms(inner.S, v)
+		// prefer terms mentioning only this variable
+		pick := ""
+		for _, t := range ts {
+			only := true
+			for _, w := range vars {
+				if w != v && mentions(t, w) {
+					only = false
+				}
+			}
+			if only {
+				pick = t
+				break
+			}
+		}
+		if pick == "" && len(ts) > 0 {
+			pick = ts[0]
+		}
+		if pick == "" {
+			ok = false
+			break
+		}
+		dup := false
+		for _, m := range multi {
+			if m == pick {
+				dup = true
+			}
+		}
+		if !dup {
+			multi = append(multi, pick)
+		}
+	}
+	if ok && len(multi) > 0 {
+		pats := " :pattern (" + strings.Join(multi, " ") + ")"
+		if len(vars) == 1 {
+			// alternatives for a single variable
+			pats = ""
+			for _, t := range triggerTerms(inner.S, vars[0]) {
+				pats += " :pattern (" + t + ")"
+			}
+		}
+		return Term{fmt.Sprintf("(forall (%s) (! %s%s))", bind.String(), inner.S, pats), sBool}
+	}
+	return Term{fmt.Sprintf("(forall (%s) %s)", bind.String(), inner.S), sBool}
+}
+
+func mentions(s, v string) bool {
+	i := 0
+	for {
+		j := strings.Index(s[i:], v)
+		if j < 0 {
+			return false
+		}
+		j += i
+		end := j + len(v)
+		okL := j == 0 || strings.ContainsRune(" ()", rune(s[j-1]))
+		okR := end == len(s) || strings.ContainsRune(" ()", rune(s[end]))
+		if okL && okR {
+			return true
+		}
+		i = end
+	}
 }
